@@ -6,6 +6,7 @@ import (
 	"fmt"
 	"net/http"
 	"net/http/httptest"
+	"runtime"
 	"strings"
 	"sync"
 	"sync/atomic"
@@ -1229,8 +1230,11 @@ func execC19First(t *testing.T, c C19First) (v Verdict) {
 				rec := httptest.NewRecorder()
 				req := httptest.NewRequest("POST", "/", bytes.NewReader(data))
 				arrived.Add(1)
-				for arrived.Load() < int32(c.N) {
-					// spin: all N leave within nanoseconds of each other
+				for k := 0; arrived.Load() < int32(c.N); k++ {
+					// spin: all N leave within nanoseconds of each other (yield now and then on machines with few cores)
+					if k > 20000 {
+						runtime.Gosched()
+					}
 				}
 				recv.ServeHTTP(rec, req)
 				codes[i] = rec.Code
@@ -1378,4 +1382,6 @@ func execC19SlowReader(t *testing.T, c C19SlowReader) (v Verdict) {
 	return
 }
 
-func TestC19SlowReader(t *testing.T) { checkProp(t, "C19", "slow-reader", genC19SlowReader, execC19SlowReader) }
+func TestC19SlowReader(t *testing.T) {
+	checkProp(t, "C19", "slow-reader", genC19SlowReader, execC19SlowReader)
+}
